@@ -706,3 +706,19 @@ def conn_flood(rng):
     total = sum(len(t) for t in threads)
     threads[0] += [["join"], ["sleep", round(total * 0.1 + 3.0, 1)], ["snap"]]
     return {"kind": "conn", "device": {"type": "scripted", "latency": rng.choice([0.0, 0.02, 0.15])}, "log_size": 0, "threads": threads, "pre_register": [1], "final_wait": 0}
+
+
+def conn_two(rng):
+    """C16 flavour: two independent connections in one process; close() of connection B is called from inside a message callback of
+    connection A (i.e. on A's reader thread) while B has commands pending"""
+    k = rng.randint(0, 3)
+    scripts = {"1": [[] for _ in range(k)] + [[["close2"]] + ([["close2"]] if rng.random() < 0.3 else [])]}
+    t0 = [["sleep", rng.choice([0.3, 0.5])]]
+    for i in range(rng.randint(2, 12)):
+        t0.append(["put2", "B", f"F{i}", str(i)])            # a burst on B, still being sent when it is closed
+    for i in range(k + 2):
+        t0.append(["put", "A", f"G{i}", str(i)])             # echoes on A invoke A's callback
+        t0.append(["sleep", rng.choice([0.0, 0.05, 0.15])])
+    t0.append(["sleep", 8.0])
+    return {"kind": "conn", "device": {"type": "scripted", "latency": rng.choice([0.0, 0.02, 0.06])}, "second": {"device": {"type": "scripted", "latency": rng.choice([0.02, 0.3])}},
+            "log_size": 0, "threads": [t0], "pre_register": [1], "callbacks": scripts, "final_wait": 0}
